@@ -322,6 +322,25 @@ def _symbolic_for(interp, s, frame, state, space):
         return _summarise_multi(interp, s, frame, st, lo, hi, item_fn, normal, i, scal_h, pre_env, pre_heap, where)
     fr1, st1 = normal[0]
     touched = sorted({sid for sid in st1.heap if sid in pre_heap and st1.heap[sid] is not pre_heap[sid]})
+    # a DataFrame column of integers that the body replaces by its own float/complex promotion (`df[c] += <float array>` on the
+    # integer zeros of pd.DataFrame(0, ...)): promote the column in the pre-state (same values: Z is embedded in R, A1/A2) and
+    # summarise the loop from there, so that the accumulation goes in place into one array cell.
+    promoted = False
+    for sid in touched:
+        c0, c1 = pre_heap[sid], st1.heap[sid]
+        if c0.kind == "df" and c1.kind == "df" and c0.data["order"] == c1.data["order"]:
+            newcols = dict(c0.data["cols"])
+            for k in c0.data["order"]:
+                a0, a1 = c0.data["cols"][k], c1.data["cols"][k]
+                if a0.sid != a1.sid and a0.dtype in ("int", "bool") and a1.dtype in ("float", "complex"):
+                    with use_state(st):
+                        newcols[k] = A.astype(a0, a1.dtype)
+                    promoted = True
+            if promoted:
+                st.heap[sid] = Content("df", {"cols": newcols, "order": list(c0.data["order"]), "n": c0.data["n"]}, c0.meta)
+    if promoted:
+        del st.side[side_mark:]
+        return _symbolic_for(interp, s, frame, state, space)
     heap_h = dict(pre_heap)
     arr_h = {}
     other_touched = []
